@@ -128,7 +128,7 @@ class Stream:
         self.k += 1
         if self.recorded is not None:
             if key not in self.recorded:
-                raise RuntimeError('replay: no recorded draw for %s' % key)
+                raise symx.Unsupported('replay: no recorded draw for %s (the symbolic run never got here)' % key)
             return int(self.recorded[key])
         if key not in self.draws:
             v = sym_int('rng%d' % (len(self.draws) + 1), 0, n - 1)
